@@ -239,3 +239,25 @@ Theorem C06_norm_path_only_strips_slashes : forall p : bytes,
   (exists k, p = norm_path p ++ repeat SLASH k) /\ (p <> [] -> norm_path p <> []).
 Proof. exact norm_path_only_strips_slashes. Qed.
 Print Assumptions C06_norm_path_only_strips_slashes.
+
+(* Depth.  The property quantifies over trees of every depth.  The MODEL has
+   no depth limit: for t at the bottom of n nested directories (any n), the
+   walk succeeds and its root hash is obtained by iterating n times, from the
+   id of t, "hash of the tree object with the single entry 40000 <name>\0<id>"
+   - the iterative reference the correspondence check uses for deep chains.
+   The IMPLEMENTATION's domain is depth < the interpreter's recursion limit
+   (Directory.from_disk raises RecursionError on a chain of 987 directories,
+   986 work): recorded as the open known finding
+   tree-deeper-than-recursion-limit, demonstrated at run time. *)
+Theorem C06_model_has_no_depth_limit : forall (H : bytes -> bytes) n name t ord,
+  is_fdir t = true -> name_wf name -> wf_fs t = true -> (forall p ks, Permutation (ord p ks) ks) ->
+  fs_depth (chain n name t) = (n + fs_depth t)%nat /\
+  exists m, from_disk ord FAll None (chain n name t) = FdOk m /\
+            mt_id H m = Nat.iter n (fun i => H (single_dir_object name i)) (node_id H t).
+Proof. exact no_depth_limit. Qed.
+Print Assumptions C06_model_has_no_depth_limit.
+
+Theorem C06_chain_id : forall (H : bytes -> bytes) n name t, is_fdir t = true ->
+  node_id H (chain n name t) = Nat.iter n (fun i => H (git_object (bs "tree") (bs "40000" ++ [SP] ++ name ++ [NUL] ++ i))) (node_id H t).
+Proof. exact node_id_chain. Qed.
+Print Assumptions C06_chain_id.
